@@ -445,11 +445,24 @@ def check(model, rep, tier):
               '%s:category(%s)' % (iu.site, name),
               'is_unsupported no longer returns True for %s callables' % name,
               {'true_guards': tg}, line=iu.node.lineno)
-  mods = [n for n in ast.walk(iu.node) if isinstance(n, ast.Tuple) and n.elts and all(
-      isinstance(e, ast.Constant) and isinstance(e.value, str) for e in n.elts)]
+  # module names reaching _is_of_known_loaded_module(o, <name>): constants, or a
+  # variable ranging over a literal sequence (loop or comprehension)
   listed = set()
-  for t in mods:
-    listed |= {e.value for e in t.elts}
+  ranges = {}
+  for n in ast.walk(iu.node):
+    gens = n.generators if isinstance(n, (ast.GeneratorExp, ast.ListComp, ast.SetComp)) \
+        else ([n] if isinstance(n, ast.For) else [])
+    for g in gens:
+      it = tpl.expand(iu, g.iter, g.iter)
+      if isinstance(g.target, ast.Name) and isinstance(it, (ast.Tuple, ast.List, ast.Set)):
+        ranges.setdefault(g.target.id, []).extend(it.elts)
+  for n in ast.walk(iu.node):
+    if isinstance(n, ast.Call) and core.dotted(n.func) == '_is_of_known_loaded_module' \
+        and len(n.args) == 2:
+      a = n.args[1]
+      for x in (ranges.get(a.id, []) if isinstance(a, ast.Name) else [a]):
+        if isinstance(x, ast.Constant) and isinstance(x.value, str):
+          listed.add(x.value)
   rep.check({'collections', 'pdb', 'copy', 'inspect', 're'} <= listed, 'CALL-POLICY',
             '%s:std-module-list' % iu.site,
             'documented std modules must stay permanently allowed',
@@ -474,14 +487,28 @@ def check(model, rep, tier):
   # mangled attribute names are rejected exactly when Python mangles them
   uf = model.func('malt/core/unsupported_features_checker.py',
                   'UnsupportedFeaturesChecker.visit_Attribute')
-  ifs = [i for i in ast.walk(uf.node) if isinstance(i, ast.If) and any(
-      isinstance(x, ast.Raise) for b in i.body for x in ast.walk(b))]
+  raises = [x for x in ast.walk(uf.node) if isinstance(x, ast.Raise)]
   verdicts = {}
-  ok = len(ifs) == 1
+  ok = bool(raises)
   if ok:
+    conds = [formula.path_condition(uf.node, x) for x in raises]
+
+    def rejected(name):
+      res = False
+      for pc in conds:
+        v = True
+        for pol, t in pc:
+          if pol == 'C':
+            return None
+          r = _eval_str_pred(tpl.expand(uf, t, t), uf, name)
+          if r is None:
+            return None
+          v = v and (r if pol == 'T' else not r)
+        res = res or v
+      return res
     for name in ('__x', '__x_', '__x__', '__', '___', '_x', 'x__', 'x', '__a_b', '__a__b',
                  '__ab_', '____'):
-      verdicts[name] = _eval_str_pred(ifs[0].test, uf, name)
+      verdicts[name] = rejected(name)
     # Python: mangled iff it starts with two underscores and does not end with two
     ok = all(v is not None and v == (n.startswith('__') and not n.endswith('__'))
              for n, v in verdicts.items())
@@ -692,13 +719,20 @@ def check(model, rep, tier):
             {}, line=rc.lineno)
 
   # ---------------------------------------------------------------- CALL-OPTS
-  ok = False
-  for n in ast.walk(cc.node):
-    if isinstance(n, ast.If) and core.norm(n.test) == 'options is None':
-      for s in n.body:
-        if isinstance(s, ast.Assign) and core.norm(s.targets[0]) == 'options' and \
-            core.norm(s.value) == 'caller_fn_scope.callopts':
-          ok = True
+  # every real assignment of `options` gives caller_fn_scope.callopts, and one
+  # is reached exactly when options is None (and a scope was passed)
+  sets = [n for n in core.walk_no_nested(cc.node) if isinstance(n, ast.Assign) and
+          len(n.targets) == 1 and core.norm(n.targets[0]) == 'options' and
+          core.norm(n.value) != 'options']
+  ok = bool(sets) and all(tpl.xnorm(cc, n.value, n) == 'caller_fn_scope.callopts'
+                          for n in sets)
+  if ok:
+    f = formula.FALSE
+    for n in sets:
+      f = f | formula.condition_formula(cc.node, n, lambda e: tpl.xnorm(cc, e, e))
+    want = formula.atom('options is None')
+    ok = formula.implies(f, want)[0] and formula.implies(
+        want & ~formula.atom('caller_fn_scope is None'), f)[0]
   rep.check(ok, 'CALL-OPTS', '%s:default-options' % cc.site,
             'options must default to caller_fn_scope.callopts', line=cc.node.lineno)
 
